@@ -947,7 +947,24 @@ def _task(name):
 
 
 def run(rep, repo, tier):
-    mod = unit(repo)
+    # The parser rules read the flag / length-modifier / conversion decisions off switch instructions.  When the plain IR has
+    # no such switch (the decisions are written as chains of `if (*p == c)` with one load each), the unit is analysed once
+    # more after early-cse, which merges the repeated loads so that simplifycfg forms the switch.
+    import copy
+    saved = {k: copy.copy(v) for k, v in rep.__dict__.items()}
+    try:
+        return _run(rep, repo, tier, False)
+    except AnalysisBroken as first:
+        rep.__dict__.clear()
+        rep.__dict__.update(saved)
+        try:
+            return _run(rep, repo, tier, True)
+        except AnalysisBroken:
+            raise first
+
+
+def _run(rep, repo, tier, cse):
+    mod = unit(repo, cse=cse)
     rep.units += [SRC] + c06_wrap.UNITS
     T = parser_tables(mod)
     D = dispatch(mod)
